@@ -79,6 +79,9 @@ class Run:
         return T.and_(*self.path) if self.path else T.TRUE
 
 
+ENUM_BASES = ("Enum", "IntEnum", "Flag", "IntFlag", "StrEnum")
+
+
 class Interp:
     def __init__(self, db: ProgramDB, inline_depth: int = 3, max_paths: int = 600,
                  decide: Optional[Callable[[T.Term], Optional[bool]]] = None,
@@ -340,9 +343,9 @@ class Interp:
             return {"True": True, "False": False, "None": None}[name]
         return ExtMod(f"builtins.{name}")
 
-    def _classref(self, mod: Module, q: str) -> Any:
+    def _classref(self, mod: Module, q: str) -> Any:  # noqa
         c = mod.classes[q]
-        if any((isinstance(b, ast.Name) and b.id == "Enum") or (isinstance(b, ast.Attribute) and b.attr == "Enum") for b in c.bases):
+        if any((isinstance(b, ast.Name) and b.id in ENUM_BASES) or (isinstance(b, ast.Attribute) and b.attr in ENUM_BASES) for b in c.bases):
             return EnumRef(mod, q, mod.enum_members(q))
         return ClassRef(mod, q)
 
@@ -785,7 +788,12 @@ class Interp:
                     return out_l if kind == "list" else set(self._hashable(x) for x in out_l)
             # symbolic comprehension
             it_t = to_term(it)
-            self.assign(gen.target, self.pm.iter_element(it, it_t), e, symbolic_elem=True)
+            if isinstance(it, Ser) and kind == "list" and len(e.generators) == 1 and isinstance(gen.target, ast.Name):
+                # [f(v) for v in series]: one element per row, in row order; v is that row's value
+                it_t = ("seriter", it.term, it.ctx)
+                self.assign(gen.target, ("at", ("row",), it.term), e, symbolic_elem=True)
+            else:
+                self.assign(gen.target, self.pm.iter_element(it, it_t), e, symbolic_elem=True)
 
             def merged_cond(expr):
                 """a filter that calls functions is evaluated per element: the callee's branches are merged into one boolean term"""
